@@ -4,23 +4,36 @@ Bounded-exhaustive, executed on the real `holopy.core.process.fft/ifft` and
 `holopy.propagate`:
 
 * every image shape (nx, ny) in [2..9]^2 (quick: [2..6]^2) plus a list of
-  large odd/even/mixed shapes up to 64x64;
+  large odd / even / mixed shapes up to 64x64;
 * for every small shape the COMPLETE unit-impulse basis e_ij (real dtype) and
   i*e_ij (complex dtype) -- a linear map is determined by it --, one dense
-  complex and one dense real image, pairs a*e_ij + b*e_kl;
+  complex and one dense real image, pairs a*e_ij + b*e_kl; for the large
+  shapes corner / edge / centre impulses and the dense images;
 * pixel spacings on both sides of half the medium wavelength (lambda_m =
-  0.4): 0.3 (coarse: no evanescent frequency, not even on the diagonal),
-  0.25 (between lambda_m/2 and lambda_m/sqrt 2), 0.1 (fine), and (0.3, 0.45)
-  with a shifted coordinate origin;
+  0.4): 0.3 ("coarse": no evanescent frequency, not even on the diagonal of
+  the frequency plane), 0.25 ("edge": between lambda_m/2 and lambda_m/sqrt 2),
+  0.1 ("fine"), and (0.3, 0.45) with a shifted coordinate origin ("aniso");
 * distances {1, -1, lambda_m/8, 10.5, -10.5, 1e3} and every spelling of
-  zero, ordered pairs (d1, d2) over that alphabet, lists of distances,
-  cfsp in {0, 1, 3}, gradient filter in {off, lambda_m}.
+  zero, ordered pairs (d1, d2) over that alphabet, lists / tuples / arrays
+  of distances, cfsp in {0, 1, 3}, gradient filter in {off, lambda_m}.
 
-Oracles are numpy (`fft2`/`fftshift`) and the relations the property states
-(identity at 0, group law, inverse at coarse sampling, linearity, energy
-bound, list == stack of singles, coordinates / attrs kept, input untouched).
-Nothing is asserted about the frequency grid of the propagator or about the
-evanescent mask.
+The default vector (coarse spacing, cfsp 0, filter off) carries the largest
+pair sets on the complete basis; deviations in spacing / options carry
+smaller pair sets (sizes are in the evidence).
+
+Oracles are numpy (`fft2`/`fftshift`, `svd`) and the relations the property
+states (identity at 0, group law, inverse at coarse sampling, linearity,
+energy bound, list == stack of singles, coordinates / attrs kept, input
+untouched).  Nothing is asserted about the frequency grid of the propagator
+or about the evanescent mask.
+
+Sub-checks: fft-accepts, fft-dims, fft-vs-numpy, ifft-accepts, ifft-dims,
+ifft-inverse, ifft-coords, fft-input-unchanged (each also as *-noshift);
+propagate-accepts, result-type, result-shape, input-unchanged,
+coords-preserved, attrs-preserved, name-preserved, energy,
+energy-operator-norm, d0-identity, group-law, inverse-coarse, linearity,
+superposition, list-stack-size, list-z-coordinates, list-vs-single,
+cfsp-consistent, gradient-filter-difference.
 """
 import itertools
 
@@ -395,18 +408,22 @@ class Ctx:
         return "image %s %s sp=%s" % (_sid(self.shape), name, self.spname)
 
     # ---- checked call ----------------------------------------------------
-    def call(self, a, d, cfsp=0, gf=False, label="", fp_before=None):
+    def call(self, a, d, cfsp=0, gf=False, label="", fp_before=None,
+             meta_kwargs=False):
         import xarray as xr
         from holopy import propagate
         ck = self.ck
-        desc = "propagate(%s, d=%r, cfsp=%r, gradient_filter=%r)" % (
-            label, d, cfsp, gf)
+        desc = "propagate(%s, d=%r, cfsp=%r, gradient_filter=%r%s)" % (
+            label, d, cfsp, gf,
+            ", medium_index=, illum_wavelen=" if meta_kwargs else "")
+        kw = dict(medium_index=N_MED, illum_wavelen=LAM_ILLUM) \
+            if meta_kwargs else {}
         if fp_before is None:
             fp_before = fp_xarray(a)
         ck.trans += 1
         self.info["propagate_calls"] += 1
         try:
-            r = propagate(a, d, cfsp=cfsp, gradient_filter=gf)
+            r = propagate(a, d, cfsp=cfsp, gradient_filter=gf, **kw)
         except Exception as e:
             if _holopy_error(e):
                 self.info["refused"] += 1
@@ -439,6 +456,9 @@ class Ctx:
                       obs=_short(cr), exp=_short(ca))
         # metadata
         ia, ir = _attr_items(a.attrs), _attr_items(r.attrs)
+        for k in kw:            # metadata given in the call may be recorded
+            if k not in ia:
+                ir.pop(k, None)
         if ia != ir:
             diff = sorted(k for k in set(ia) | set(ir)
                           if ia.get(k) != ir.get(k))
@@ -515,6 +535,12 @@ class Ctx:
     def opnorm(self, M, d, cfsp=0):
         """largest singular value of the basis matrix <= 1, plus a direct
         call on the worst image (the universal energy check decides it)."""
+        if not np.all(np.isfinite(M)):
+            _fail(self.ck, "energy-operator-norm",
+                  "%s sp=%s d=%r cfsp=%r: propagated unit impulses contain "
+                  "non-finite values" % (_sid(self.shape), self.spname, d,
+                                         cfsp))
+            return
         u, s, vh = np.linalg.svd(M)
         smax = float(s[0])
         self.ck.metric("energy-operator-norm", max(smax - 1.0, 0.0))
@@ -816,7 +842,7 @@ def _run_list(case, ck):
         probes = cx.probes(nprobe)
         for li, L in enumerate(LISTS):
             forms = [("list", list(L))]
-            if li < 3 and forms_on:
+            if li in (0, 1, 2, 5) and forms_on:
                 forms += [("tuple", tuple(L)), ("ndarray", np.array(L))]
             for nm in probes:
                 for fname, arg in forms:
@@ -830,6 +856,10 @@ def _run_list(case, ck):
     return digest(*acc), info
 
 
+def _as_form(fname, L):
+    return {"list": list, "tuple": tuple, "ndarray": np.array}[fname](L)
+
+
 def _one_list(cx, nm, L, fname, arg, cfsp, gf):
     ck = cx.ck
     a = cx.image(nm)
@@ -838,6 +868,10 @@ def _one_list(cx, nm, L, fname, arg, cfsp, gf):
         lab, L, cfsp, gf)
     r = cx.call(a, arg, cfsp, gf, label=lab, fp_before=cx.fp0[nm])
     cx.info["list_calls"] += 1
+    if type(arg) is not type(_as_form(fname, L)) or \
+            list(arg) != list(L):
+        _fail(ck, "input-unchanged", "%s modified the distances it was "
+              "given: now %r" % (desc, arg))
     if "z" not in r.dims or r.sizes["z"] != len(L):
         _fail(ck, "list-stack-size", "%s: result has dims %r sizes %r, "
               "expected %d slices along z" %
@@ -912,6 +946,13 @@ def _run_opts(case, ck):
                (2 * abs(d) + LAM_M) / LAM_M,
                "%s d=%r: gradient_filter=%r vs P(d)-P(d+filter)" %
                (cx.label(nm), d, LAM_M))
+    # metadata passed in the call instead of stored in the image
+    for nm in probes:
+        bare = cx.mk(cx.values(nm), with_metadata=False)
+        for d in [d0] + dprobe:
+            r = cx.call(bare, d, label=cx.label(nm) + " without "
+                        "medium_index/illum_wavelen attrs", meta_kwargs=True)
+            cx.acc.append(np.round(cx.plane(r).ravel()[:16], 9))
     # group law with cascaded propagation
     for cfsp in (1, 3):
         for d1, d2 in PAIRS["mini"]:
